@@ -3,7 +3,18 @@ from fractions import Fraction
 from tools import vlib
 from checks.common import frac, parse_entries
 
-THEOREMS = []
+THEOREMS = [
+    "Rink.Spec.listLoop_eq",
+    "Rink.Spec.decomp_sum",
+    "Rink.Spec.decomp_integral",
+    "Rink.Spec.remainders_lt",
+    "Rink.Spec.decomp_sign_nonneg",
+    "Rink.Spec.decomp_sign_nonpos",
+    "Rink.Spec.toList_refuses_member",
+    "Rink.Spec.toList_refuses_value",
+    "Rink.Spec.step_remainder_lt",
+    "Rink.Spec.abs_fracPart_lt_one",
+]
 
 def laws(v, units, parts):
     if len(parts) != len(units):
